@@ -644,6 +644,30 @@ def gen_cases(ctx, consts):
 
 
 # ------------------------------------------------------------------------------------------------
+def nonascii_encoding_decl(request):
+    """attribution predicate of F33: some document of the request has an XML declaration whose encoding value contains a
+    non-ASCII character"""
+    import re
+    f = request.split()
+    for spec in f[6::2]:
+        if spec == "-":
+            continue
+        try:
+            b = b"".join(bytes.fromhex(seg.split("*")[0]) * int(seg.split("*")[1]) if "*" in seg else bytes.fromhex(seg) for seg in spec.split(","))
+        except Exception:
+            continue
+        head = b[:400]
+        for codec in ("utf-16-le", "utf-16-be", "utf-8", "latin-1", "utf-32-le", "utf-32-be"):
+            t = head.decode(codec, "replace")
+            m = re.search(r"encoding\s*=\s*(['\"])(.*?)(\1|$)", t, re.S)
+            if m and any(ord(ch) >= 0x80 for ch in m.group(2)):
+                return True
+    return False
+
+
+KNOWN_PREDICATES = {"nonascii_encoding_decl": nonascii_encoding_decl}
+
+
 def run_watchdog(binpath, lines, env):
     """run the harness; returns (answers, status, stderr) where status in ok|crash|hang; one answer per request line,
     10 s allowed per answer"""
@@ -888,7 +912,8 @@ def run(ctx):
         if status == "crash":
             for f in ctx.known:
                 sig = f.get("signature")
-                if sig and all(x in err for x in sig):
+                pred = KNOWN_PREDICATES.get(f.get("request_predicate", ""))
+                if sig and all(x in err for x in sig) and (pred is None or pred(reqs[pos])):
                     sig_hit = f
                     break
         if sig_hit is not None:
